@@ -59,6 +59,12 @@ func genC16(d *RunDesc, tier string) {
 	if tier == "thorough" {
 		maxOps = 20
 	}
+	if sc.chance(1, 12) {
+		// a small workload whose single pre-emptions are enumerated completely
+		d.Sched.Sweep = true
+		nTasks = wl.between(2, 3)
+		maxOps = 3
+	}
 	// a small template pool so that the same template is exported concurrently
 	var tmplPool []string
 	var tmplLevels []int
@@ -74,7 +80,7 @@ func genC16(d *RunDesc, tier string) {
 		tmplLevels = append(tmplLevels, lvl)
 	}
 	weights := [5]int{wl.between(1, 6), wl.between(1, 6), wl.between(1, 4), wl.between(1, 5), wl.between(0, 3)} // dec obs rep exp lkp
-	if wl.chance(1, 3) {
+	if wl.chance(1, 3) || d.Sched.Sweep {
 		// swarm: a run dominated by one kind of operation
 		weights[wl.intn(5)] = 24
 	}
@@ -387,6 +393,86 @@ func runC16(d *RunDesc, res *RunResult) {
 	}
 	if cr.Preemptions > 0 {
 		res.Stats.CaseKeys = append(res.Stats.CaseKeys, cr.FP)
+	}
+	// Single-pre-emption sweep: for this (small) workload, every schedule in which
+	// one task is pre-empted once, at one of its hot yields, while all the others run
+	// to completion in between - enumerated completely, each on a fresh world.
+	if d.Sched.Sweep && len(res.Violations) == 0 && res.Trouble == "" {
+		const capPerTask = 200
+		execs := 0
+	sweep:
+		for t := 0; t < nT && t < 3; t++ {
+			n := uint64(0)
+			if t < len(cr.HotYields) {
+				n = cr.HotYields[t]
+			}
+			if n > capPerTask {
+				n = capPerTask
+				res.Stats.count("sweep-capped")
+			}
+			prio := []int{t}
+			for _, o := range d.Sched.Prio {
+				if o != t {
+					prio = append(prio, o)
+				}
+			}
+			for k := uint64(0); k < n; k++ {
+				cfgS := cfg
+				cfgS.Policy, cfgS.SweepTask, cfgS.SweepK, cfgS.Prio, cfgS.Explicit = simrt.PolicySweep, t, k, prio, nil
+				wS := buildWorld(d)
+				beforeS := worldSnapshot(wS)
+				resS := make([][]string, nT)
+				ctxS := make([]*taskCtx, nT)
+				r0 := raceErrors()
+				crS := simrt.Run(cfgS, mk(wS, resS, ctxS))
+				execs++
+				res.FP = simrt.Mix(res.FP, crS.FP)
+				res.Stats.Yields += crS.Yields
+				res.Stats.Switches += crS.NSwitches
+				res.Stats.Preemptions += crS.Preemptions
+				if crS.Preemptions > 0 {
+					res.Stats.CaseKeys = append(res.Stats.CaseKeys, crS.FP)
+				}
+				bad := false
+				if crS.Deadlock {
+					res.addViolation("deadlock", "every unfinished task is blocked", -1, -1)
+					bad = true
+				}
+				for tt := 0; tt < nT && !bad; tt++ {
+					for i := range d.Tasks[tt] {
+						if resS[tt][i] != seqRes[tt][i] {
+							res.addViolation("mismatch-seq:"+d.Tasks[tt][i].K,
+								fmt.Sprintf("single pre-emption of task %d at its hot yield #%d: task %d op %d (%s): sequential=%s concurrent=%s", t, k, tt, i, d.Tasks[tt][i].K, clip(seqRes[tt][i], 600), clip(resS[tt][i], 600)), tt, i)
+							bad = true
+							break
+						}
+					}
+				}
+				afterS := worldSnapshot(wS)
+				for i := range beforeS {
+					if beforeS[i] != afterS[i] {
+						res.addViolation("mutated-shared", fmt.Sprintf("shared #%d before=%s after=%s", i, clip(beforeS[i], 500), clip(afterS[i], 500)), -1, -1)
+						bad = true
+					}
+				}
+				if nr := raceErrors() - r0; nr > 0 {
+					res.Stats.RaceReports += nr
+					res.addViolation("race", fmt.Sprintf("%d race report(s) by the Go race detector during this run", nr), -1, -1)
+					bad = true
+				}
+				if bad {
+					// the replay is this one schedule
+					res.Switches = crS.Switches
+					d.Sched.Prio = prio
+					break sweep
+				}
+			}
+		}
+		if res.Stats.Counters == nil {
+			res.Stats.Counters = map[string]int{}
+		}
+		res.Stats.Counters["sweep-runs"]++
+		res.Stats.Counters["sweep-executions"] += execs
 	}
 	if res.Stats.Sample == "" {
 		res.Stats.Sample = fmt.Sprintf("tasks=%d ops=%d policy=%d p=%v switches=%d preemptions=%d yields=%d first-op=%v", nT, res.Stats.Ops, d.Sched.Policy, d.Sched.P, cr.NSwitches, cr.Preemptions, cr.Yields, d.Tasks[0][0])
